@@ -213,6 +213,28 @@ fn cmd_replay(args: &[String]) {
     let mut events = 0usize;
     let mut mism: Vec<Value> = Vec::new();
     let mut panics: Vec<Value> = Vec::new();
+    // watchdog: a behaviour that does not finish (a call that never returns) ends the process with
+    // status 4; the orchestrator records a Timeout event for the behaviour named in the progress
+    // file and goes on with the next one
+    let beat = std::sync::Arc::new(std::sync::atomic::AtomicU64::new(0));
+    {
+        let beat = beat.clone();
+        let limit: u64 = std::env::var("VERIF_OP_TIMEOUT").ok().and_then(|x| x.parse().ok()).unwrap_or(60);
+        std::thread::spawn(move || {
+            let mut last = beat.load(std::sync::atomic::Ordering::SeqCst);
+            let mut since = std::time::Instant::now();
+            loop {
+                std::thread::sleep(std::time::Duration::from_millis(500));
+                let cur = beat.load(std::sync::atomic::Ordering::SeqCst);
+                if cur != last {
+                    last = cur;
+                    since = std::time::Instant::now();
+                } else if since.elapsed().as_secs() >= limit {
+                    std::process::exit(4);
+                }
+            }
+        });
+    }
     for (idx, line) in f.lines().enumerate() {
         let line = line.unwrap();
         if line.trim().is_empty() {
@@ -227,7 +249,9 @@ fn cmd_replay(args: &[String]) {
             out.flush().unwrap();
             std::fs::write(p, format!("{}", idx)).unwrap();
         }
+        beat.fetch_add(1, std::sync::atomic::Ordering::SeqCst);
         let (r, _) = run_behaviour(&b, id, Some(&mut out), !only_bad);
+        beat.fetch_add(1, std::sync::atomic::Ordering::SeqCst);
         n += 1;
         events += r.events;
         if let Some((i, m)) = r.mismatch {
